@@ -511,6 +511,12 @@ pub fn gen_aggregate(rng: &mut Rng, s: &Schema, cfg: &AggCfg) -> Sel {
             _ => E::Agg("count".into(), false, vec![col(&s.cols[rng.below(s.cols.len())].0)]),
         };
         let cmp = bin(*rng.pick(&[">", ">=", "<", "=", "!="]), hagg, int(rng.range(0, 6)));
+        // sometimes two or three hidden aggregates in one HAVING (each has a slot of its own in the group's state)
+        let cmp = if rng.chance(1, 3) {
+            let second = bin(*rng.pick(&["<", ">=", "!="]), E::Agg(rng.pick(&["sum", "min", "max"]).to_string(), false, vec![col(cg)]), int(rng.range(0, 12)));
+            let both = bin(*rng.pick(&["AND", "OR"]), cmp, second);
+            if rng.chance(1, 3) { bin("AND", both, bin(">=", E::Agg("count".into(), true, vec![col(ci)]), int(rng.range(0, 3)))) } else { both }
+        } else { cmp };
         sel.having = Some(if !keys.is_empty() && matches!(keys[0], E::Col(_)) && rng.chance(1, 3) {
             let keycond = match &keys[0] { E::Col(n) if n == ck => bin("!=", keys[0].clone(), text("a")), E::Col(n) if n == cg => bin(">=", keys[0].clone(), int(1)), _ => E::Is(true, b(keys[0].clone()), b(E::Null)) };
             bin(*rng.pick(&["AND", "OR"]), cmp, keycond)
